@@ -127,7 +127,40 @@ def setup(concepts, spec):
     POOL = common.Pool(4)
 
 
+def run_biglat(concepts, case, spec):
+    """More than 65 536 concepts: the predicates of sampled pairs against masks read from the extents."""
+    rng = common.rng_for(case, spec)
+    ctx = common.build_or_skip(concepts, case)
+    if ctx is None:
+        return
+    sh = attach.shadow_of(ctx)
+    lat = call(lambda: ctx.lattice)
+    if lat is RAISED:
+        COL.violation('driver', 'biglat:construction-raised', 'a lattice', 'exception')
+        return
+    members = list(lat)
+    COL.count('biglat_cases')
+    COL.sample({'fam': case['fam'], 'n_concepts': len(members)})
+    n = len(members)
+    picks = [0, 1, n - 1, n - 2] + [rng.randrange(n) for _ in range(60)]
+    for a in picks:
+        for b in rng.sample(picks, 12) + list(members[a].upper_neighbors[:2]) + list(members[a].lower_neighbors[:2]):
+            x = members[a]
+            y = members[b] if isinstance(b, int) else b
+            ex, ey = sh.omask(x.extent), sh.omask(y.extent)
+            ix, iy = sh.pmask(x.intent), sh.pmask(y.intent)
+            for pname, fn in PREDICATES.items():
+                want = bool(fn(ex, ey, ix, iy, sh.ALLO))
+                got = call(getattr(x, pname), y) if rng.random() < .5 or pname not in ORDER else call(OPS[ALIASES[pname]], x, y)
+                COL.count('judged_' + pname)
+                COL.count('judged_biglat_pairs')
+                if got is RAISED or bool(got) != want:
+                    COL.violation(pname, f'{pname}:truthiness-differs-from-extent-predicate', want,
+                                  None if got is RAISED else bool(got), {'x': repr(x)[:120], 'y': repr(y)[:120], 'biglat': case['fam']})
+
+
 def cases(tier, seed, spec):
+    yield from gen.biglat(tier, sizes=(16, 17))
     yield from gen.ctx_stream(tier, seed)
 
 
@@ -159,6 +192,8 @@ def _orphans(concepts, case, spec):
 
 
 def run_case(concepts, case, spec):
+    if case['fam'].startswith('BIGLAT'):
+        return run_biglat(concepts, case, spec)
     rng = common.rng_for(case, spec)
     ctx = common.build_or_skip(concepts, case)
     if ctx is None:
